@@ -444,8 +444,14 @@ func writeEvidence(p *Property, opts *Options, specs []*HarnessSpec, results []*
 		os.WriteFile(filepath.Join(verifDir, "out", "SELF", "evidence.json"), bs, 0644)
 		return
 	}
-	os.MkdirAll(filepath.Join(verifDir, "evidence"), 0755)
-	os.WriteFile(filepath.Join(verifDir, "evidence", p.ID+".json"), bs, 0644)
+	evDir := filepath.Join(verifDir, "evidence")
+	if d := os.Getenv("VERIF_SEED_EVIDENCE_DIR"); d != "" {
+		// set only by seed_eval.sh / seed_recheck.sh: a run against a deliberately broken tree keeps its record with the
+		// seed instead of replacing the evidence of the unchanged tree
+		evDir = d
+	}
+	os.MkdirAll(evDir, 0755)
+	os.WriteFile(filepath.Join(evDir, p.ID+".json"), bs, 0644)
 }
 
 func firstNonEmpty(a, b string) string {
